@@ -397,3 +397,13 @@ V("silent-assert-before-write", "C04", HX, "    def _set_db_value(self, key, val
   expect="silent", props=["C04", "C05", "C06"], only=True)  # (C01 / C03: an assertion the path conditions cannot refute is a raise site for EXC1, by design)
 V("silent-warnings-warn", "C14", SM, "        self._default = default\n", "        self._default = default\n        if default != BLANK_NODE:\n            warnings.warn('non-blank default')\n", expect="silent", props=["C14", "C15"],
   edits=[(SM, "from typing import (", "import warnings\nfrom typing import ("), (SM, "        self._default = default\n", "        self._default = default\n        if default != BLANK_NODE:\n            warnings.warn('non-blank default')\n")])
+
+# round 4 (second batch): constructor bypass, validation behind a memo
+V("c18-from-db-bypasses-init", "C18", SM, "        smt = cls(key_size=key_size, default=default)\n\n        # If db is provided",
+  "        smt = cls.__new__(cls)\n        smt._key_size = key_size\n        smt._default = default\n\n        # If db is provided", rule="VAL3")
+_BN_GET = "    def get(self, key):\n        \"\"\"\n        Fetches the value with a given keypath from the given node.\n\n        Key will be encoded into binary array format first.\n        \"\"\"\n        validate_is_bytes(key)\n\n        return self._get(self.root_hash, encode_to_bin(key))"
+V("c18-validator-behind-lru-cache", "C18", BN, "", "", rule="VAL1",
+  edits=[(BN, _BN_GET, "    def get(self, key):\n        return self._get(self.root_hash, _enc(key))"),
+         (BN, "class BinaryTrie:", "import functools\n\n\n@functools.lru_cache(maxsize=128)\ndef _enc(key):\n    validate_is_bytes(key)\n    return encode_to_bin(key)\n\n\nclass BinaryTrie:")])
+V("c13-witness-drops-diverging-kv-node", "C13", "trie/branches.py", "            )\n        else:\n            yield node\n    elif nodetype == BRANCH_TYPE:\n        if keypath[:1] == BYTE_0:\n            yield node\n            yield from _get_witness_for_key_prefix(db, left_child, keypath[1:])",
+  "            )\n        else:\n            return\n    elif nodetype == BRANCH_TYPE:\n        if keypath[:1] == BYTE_0:\n            yield node\n            yield from _get_witness_for_key_prefix(db, left_child, keypath[1:])", rule="SIB4")
